@@ -249,11 +249,20 @@ def mon_fifo(run):
             if o["ret"] is not None and (o["res"].startswith("ok") or o["res"].startswith("true")):
                 accepted_at[v] = o["ret"]
     got = {}           # tag -> (call idx, ret idx, position in drain)
+    wait_began = {}    # (tid, future) -> call index of the first poll of the current wait
     for o in ops:
+        t = o["op"].split(" ")
+        if t[0] == "pollr":
+            wait_began.setdefault((o["tid"], t[1]), o["call"])
         if o["ret"] is None:
             continue
         for pos, v in enumerate(received_values(o)):
-            got[v] = (o["call"], o["ret"], pos, id(o))
+            began = o["call"]
+            if t[0] == "pollr":
+                began = wait_began.pop((o["tid"], t[1]), o["call"])   # the receive began when the future was first polled
+            got[v] = (began, o["ret"], pos, id(o))
+        if t[0] == "pollr" and not (o["res"] or "").startswith("pending"):
+            wait_began.pop((o["tid"], t[1]), None)
     bad = []
     tags = [v for v in got if v in accepted_at or v in begun_at]
     for a in tags:
@@ -278,7 +287,7 @@ def mon_capacity(run, cap):
         bad = []
         for o in run.ops():
             k = o["op"].split(" ")[0]
-            if k == "try" and o["res"] and o["res"].startswith("false"):
+            if k == "try" and o["res"] and o["res"].startswith("false") and o["op"].split(" ")[3] == "0":
                 bad.append(f"unbounded channel refused {o['op']}")
             if k == "polls" and o["res"] and o["res"].startswith("pending"):
                 bad.append(f"unbounded channel made {o['op']} wait")
@@ -301,11 +310,22 @@ def mon_capacity(run, cap):
             ok_at.append(o["ret"])
         elif t[0] == "len" and re.match(r"n\d+", o["res"]) and int(o["res"].split(" ")[0][1:]) > n:
             bad.append(f"len() reported {o['res']} on capacity {n}")
-    taken = []     # (call index, number of values) of receive ops that obtained values
+    taken = []     # (index at which the receive began, number of values) of receive ops that obtained values
+    wait_began = {}
     for o in ops:
+        t = o["op"].split(" ")
+        if t[0] == "pollr":
+            wait_began.setdefault((o["tid"], t[1]), o["call"])
         vs = received_values(o) if o["ret"] is not None else []
+        began = o["call"]
+        if t[0] == "pollr" and o["ret"] is not None and not (o["res"] or "").startswith("pending"):
+            began = wait_began.pop((o["tid"], t[1]), o["call"])   # a future's receive begins at its first poll
         if vs:
-            taken.append((o["call"], len(vs)))
+            taken.append((began, len(vs)))
+    # a receive future that registered and was never polled to completion may hold a value a sender
+    # handed to it (the receive had begun and took it): count one possible value for each such wait
+    for (tid, f), began in wait_began.items():
+        taken.append((began, 1))
     # also values consumed by a dropped receive future that had been claimed count as taken by a begun receive;
     # they show up as pdrop of a sent tag during droprf — approximated by not flagging when such a drop exists
     claimed_drop = any(k == "call" and a and a[0] == "droprf" for (_, k, a) in run.events)
@@ -376,6 +396,10 @@ def mon_close(run):
         r = o["res"]
         if k == "close" and not r.startswith("err:CloseError"):
             bad.append(f"close after close returned {r}")
+        t = o["op"].split(" ")
+        realtime = (k == "try" and t[3] == "1") or (k == "tryr" and t[1] == "1")
+        if realtime and (r.startswith("false") or r.startswith("none")):
+            continue          # a *_realtime call that found the lock busy reports not-done (C14)
         if k in ("send", "sendt", "sendot", "try", "recv", "recvt", "tryr", "drain") and not r.startswith("err:Closed"):
             bad.append(f"{o['op']} begun after close returned {r}")
         if k in ("scount", "rcount") and not r.startswith("n0"):
@@ -432,7 +456,50 @@ def mon_stuck(run, cap):
     return bad
 
 
+def mon_disconnect(run):
+    """C11: a receive reports SendClosed only if every sender handle's drop had begun before the receive
+    returned (and no close succeeded: then it would be Closed); symmetrically ReceiveClosed for sends.
+    After every sender handle's drop has *returned*, a receive begun later never blocks and never reports
+    Ok(None)/Pending on an empty channel — it reports SendClosed (or a buffered value)."""
+    bad = []
+    ops = run.ops()
+    nthreads = len({o["tid"] for o in ops})
+    live = {"s": [], "r": []}   # per side: list of (created_index, drop_call_index or None, drop_ret_index or None)
+    # initial handles: one per thread per side, dropped by that thread's teardown `drop s` / `drop r` (last ones)
+    for side in "sr":
+        handles = []
+        for tid in sorted({o["tid"] for o in ops}):
+            stack = [[-1, None, None]]
+            for o in [x for x in ops if x["tid"] == tid]:
+                t = o["op"].split(" ")
+                if t[0] == "clone" and t[1] == side and (o["res"] or "").startswith("ok"):
+                    stack.append([o["ret"], None, None])
+                    handles.append(stack[-1])
+                if t[0] == "drop" and t[1] == side and stack:
+                    live_ones = [h for h in stack if h[1] is None]
+                    if live_ones:
+                        live_ones[-1][1] = o["call"]
+                        live_ones[-1][2] = o["ret"]
+            handles.append(stack[0])
+        live[side] = handles
+    closed_at = min([o["ret"] for o in ops if o["op"].startswith("close") and (o["res"] or "").startswith("ok")] or [10 ** 9])
+
+    def all_drop_begun(side, at):
+        return all(h[1] is not None and h[1] < at for h in live[side] if h[0] < at)
+
+    for o in ops:
+        if o["ret"] is None:
+            continue
+        r = o["res"]
+        if "err:SendClosed" in r and not all_drop_begun("s", o["ret"]):
+            bad.append(f"{o['tid']} {o['op']} reported SendClosed (event {o['ret']}) while a sender handle was still alive")
+        if "err:ReceiveClosed" in r and not all_drop_begun("r", o["ret"]):
+            bad.append(f"{o['tid']} {o['op']} reported ReceiveClosed (event {o['ret']}) while a receiver handle was still alive")
+    return bad
+
+
 ALL_MONITORS = {
+    "disconnect": lambda run, ctx: mon_disconnect(run),
     "stuck": lambda run, ctx: mon_stuck(run, ctx["cap"]),
     "mutex": lambda run, ctx: mon_mutex(run, ctx["ords"]),
     "realtime": lambda run, ctx: mon_realtime(run),
